@@ -12,7 +12,7 @@ SPEC = {
                 # a running Advertiser re-dialled onto an interface that changed (hardware address present / absent): every RA
                 # handed to the socket is encodable
                 {"pkg": "internal/corerad", "test": "TestVerifC01Redial", "newgo": True, "timeout": 300, "arch386": []}],
-    "known_classes": {1: "float_seconds_roundup", 2: "option_over_248_bytes"},
+    "known_classes": {1: "float_seconds_roundup", 2: "option_over_248_bytes", 3: "lla_not_6_bytes"},
     "rule": "corpus (one witness per known-finding class, the repaired defects, field limits) then the C01 generator biased to extreme durations "
             "(1ns, sub-second, 2^24 s and 2^31 s with fractions around the float round-up window, 4294967294.999999xxx s, infinite, out-of-range and "
             "negative strings), arbitrary pref64 CIDRs (every prefix length 0..128 with the canonical address for that length -- a fixed stream c03-pref64-len-N and a random branch --, IPv4, host bits), option sizes around 248 bytes (14..17 and "
